@@ -285,6 +285,12 @@ func hostNearMisses(p Pat) []string {
 	h := p.Host
 	set := map[string]struct{}{h: {}}
 	add := func(s string) { set[s] = struct{}{} }
+	if ip, err := netip.ParseAddr(strings.TrimSuffix(strings.TrimPrefix(h, "["), "]")); err == nil {
+		// the same address in other textual forms (IPv4-mapped, expanded, decimal, hex, short, zoned ...)
+		for _, f := range ipRespellings(ip) {
+			add(f)
+		}
+	}
 	if strings.HasPrefix(h, "[") {
 		inner := h[1 : len(h)-1]
 		add("[" + inner + "1]")
